@@ -2,6 +2,7 @@ package rules
 
 import (
 	"fmt"
+	"gldapverif/report"
 	"go/token"
 	"os"
 	"strconv"
@@ -414,6 +415,14 @@ func checkC19(c *Ctx) {
 			}
 		}
 		R.Check(okG, "C19-getvalues", "(*Entry).GetAttributeValues: values of the first attribute with exactly that name", c.P.Pos(gav.Pos()), "forward range; first element whose Name == argument decides; otherwise an empty list", "GetAttributeValues does not return the first exactly-named attribute's values: atoms "+strings.Join(gatoms, "; "))
+	}
+	// ---- C19-request-intact: the decision is made on the name and password the client sent, and every bind reaches
+	// the handler: gldap's decoder hands over a simple bind's fields unchanged and rejects it only for its BER shape
+	// (rules C01-field / C01-assert / C01-reject / C01-count for SimpleBindMessage)
+	if c.importRules(checkC01, func(o report.Obligation) bool {
+		return strings.HasPrefix(o.Construct, "*SimpleBindMessage") && (o.Rule == "C01-field" || o.Rule == "C01-assert" || o.Rule == "C01-reject" || o.Rule == "C01-count")
+	}, "C19-request-intact", " - a bind the statement says must succeed (or be answered with invalidCredentials) is decided on other data or never reaches the bind handler") > 0 {
+		R.Floor("C19-request-intact", 3)
 	}
 	R.Assumptions = append(R.Assumptions, "SimpleBindMessage.AuthChoice is always SimpleAuthChoice (newMessage); unlocked reads of the directory state are C15's concern")
 }
